@@ -463,11 +463,47 @@ class Machine(RuleBasedStateMachine):
                 out.append(stored)
             return out
         if m.kind == FIXARR:
-            op = data.draw(st.sampled_from(['setitem', 'setslice']), label='array op')
+            op = data.draw(st.sampled_from(['setitem', 'setslice', 'setslice_from_array']), label='array op')
         else:
             op = data.draw(st.sampled_from(['append', 'insert', 'extend', 'extend_tuple', 'extend_gen', 'remove',
-                                            'setitem', 'setslice', 'delitem', 'delslice', 'extend_many']),
+                                            'setitem', 'setslice', 'delitem', 'delslice', 'extend_many',
+                                            'extend_from_array', 'setslice_from_array']),
                            label='array op')
+        if op in ('extend_from_array', 'setslice_from_array'):
+            # the argument is another prophy array of the message (any element type): its items must be validated
+            # against *this* array's element type like the items of any other iterable
+            sources = self.scalar_arrays()
+            if not sources:
+                return
+            sname, sreal, smodel = data.draw(st.sampled_from(sources), label='source array')
+            vals = list(smodel)
+            stored = checked(vals)
+            if op == 'extend_from_array':
+                ok = stored is not None and (limit is None or len(lst) + len(vals) <= limit)
+                if m.kind == EXTARR and 'ext_array_beyond_sizer_range' in self.opts.avoid:
+                    sm = next(x for x in t.members if x.name == m.sizer)
+                    if len(lst) + len(vals) > NUMERIC[self.schema.resolve(sm.type)][4]:
+                        return
+                self.structural()
+                self.apply('%s.extend(<array %s = %r>)' % (where, sname, vals), lambda: arr.extend(sreal),
+                           lambda: lst.extend(stored), 'ok' if ok else 'reject')
+            else:
+                sl = data.draw(slice_st.filter(lambda x: x.step in (None, 1)), label='slice')
+                cur = len(lst[sl])
+                if m.kind == FIXARR:
+                    ok = stored is not None and len(vals) == cur
+                else:
+                    ok = stored is not None and (limit is None or len(lst) + len(vals) - cur <= limit)
+                    if ok and m.kind == EXTARR and 'ext_array_beyond_sizer_range' in self.opts.avoid:
+                        sm = next(x for x in t.members if x.name == m.sizer)
+                        if len(lst) + len(vals) - cur > NUMERIC[self.schema.resolve(sm.type)][4]:
+                            return
+                snapshot_vals = list(stored) if stored is not None else None
+                self.structural()
+                self.apply('%s[%r:%r] = <array %s = %r>' % (where, sl.start, sl.stop, sname, vals),
+                           lambda: arr.__setitem__(sl, sreal), lambda: lst.__setitem__(sl, snapshot_vals),
+                           'ok' if ok else 'reject')
+            return
         if op == 'extend_many':
             # more elements than a narrow (8-bit) sizer can count
             k = data.draw(st.sampled_from([100, 130, 260]), label='many')
@@ -548,6 +584,34 @@ class Machine(RuleBasedStateMachine):
             self.structural()
             self.apply('del %s[%r:%r:%r]' % (where, sl.start, sl.stop, sl.step), lambda: arr.__delitem__(sl),
                        lambda: lst.__delitem__(sl), 'ok')
+
+    def scalar_arrays(self):
+        """[(path text, real array, model list)] of every scalar (non-bytes) array reachable in the message."""
+        out = []
+
+        def visit(mnode, rnode, t, path):
+            if isinstance(t, Union):
+                arm = next(a for a in t.arms if a.name == mnode[0])
+                if self.schema.is_composite(arm.type):
+                    visit(mnode[1], getattr(rnode, arm.name), self.schema.resolve(arm.type), path + '/' + arm.name)
+                return
+            sizers = t.sizers()
+            for m in t.members:
+                if m.name in sizers or m.is_bytes:
+                    continue
+                comp = self.schema.is_composite(m.type)
+                if m.kind in (FIXARR, DYNARR, LIMARR, GREEDY, EXTARR):
+                    if not comp:
+                        out.append((path + '.' + m.name, getattr(rnode, m.name), mnode[m.name]))
+                    else:
+                        for i, e in enumerate(mnode[m.name]):
+                            visit(e, getattr(rnode, m.name)[i], self.schema.resolve(m.type), '%s/%s[%d]' % (path, m.name, i))
+                elif comp and m.kind == PLAIN:
+                    visit(mnode[m.name], getattr(rnode, m.name), self.schema.resolve(m.type), path + '/' + m.name)
+                elif comp and m.kind == OPT and mnode[m.name] is not None:
+                    visit(mnode[m.name], getattr(rnode, m.name), self.schema.resolve(m.type), path + '/' + m.name)
+        visit(self.model, self.real, self.schema.resolve(self.root), '')
+        return out[:12]
 
     def value_for(self, data, tname):
         """A generated model value of a composite type (for extend by messages)."""
